@@ -47,6 +47,9 @@ def items(tier, seed):
     for hist in ("late_default_category", "clear_reconfigure"):
         for first in ("value_first", "tuple", "obtain"):
             out.append({"k": "history", "h": hist, "first": first})
+    for hist in ("captioned_lookup_first", "category_after_rejected_lookup", "other_database_rejected_pair"):
+        for u in ("m", "degC", "<unknown>", "mi", "psi"):
+            out.append({"k": "history2", "h": hist, "u": u})
     for cap_kind in ("unknown", "known_unit", "derived"):
         out.append({"k": "captioned", "q": cap_kind})
     out[0]["canary"] = True
@@ -79,6 +82,51 @@ def run(cfg, V):
             except Exception as e:  # noqa
                 return {"nocat_exc": type(e).__name__}
             return {"nocat_exc": None}
+        if cfg["k"] == "history2":
+            from barril.units import UnitDatabase
+
+            u = cfg["u"]
+            if cfg["h"] == "captioned_lookup_first":
+                # a CAPTIONED quantity of the unit was obtained by unit alone before; the caption-less forms must not inherit it
+                ObtainQuantity(u, unknown_unit_caption="as logged")
+                Scalar(ObtainQuantity(u, None, "as logged"), w)
+                use_db = db
+            elif cfg["h"] == "category_after_rejected_lookup":
+                # a database in which the unit's quantity type has no category yet: the lookup by unit alone is refused, then the category is registered
+                use_db = UnitDatabase()
+                info = db.unit_to_unit_info[u]
+                use_db.AddUnitBase(info.quantity_type, "base", "b0")
+                use_db.AddUnit(info.quantity_type, info.name, u, lambda t: t * 2.0, lambda t: t / 2.0)
+                with pushed(use_db):
+                    for first in (lambda: Scalar(w, u), lambda: ObtainQuantity(u), lambda: use_db.GetDefaultCategory(u)):
+                        try:
+                            first()
+                        except Exception:  # noqa
+                            pass
+                    use_db.AddCategory(info.quantity_type, info.quantity_type)
+            else:
+                # another database was current for a while and refused this (category, unit) pair; nothing of that may reach the stock database
+                other = UnitDatabase()
+                info = db.unit_to_unit_info[u]
+                other.AddUnitBase(info.quantity_type, "base", "b0")
+                other.AddCategory(db.GetDefaultCategory(u), info.quantity_type)
+                with pushed(other):
+                    for first in (lambda: Scalar(1.0, u, db.GetDefaultCategory(u)), lambda: other.CheckCategoryUnit(db.GetDefaultCategory(u), u), lambda: ObtainQuantity(u, db.GetDefaultCategory(u))):
+                        try:
+                            first()
+                        except Exception:  # noqa
+                            pass
+                use_db = fresh_posc_db() if False else db
+            with pushed(use_db):
+                c = use_db.GetDefaultCategory(u)
+                q = ObtainQuantity(u, c)
+                sc = [Scalar(v, u), Scalar(v, u, c), Scalar(c, v, u), Scalar((v, u)), Scalar(q, v), Scalar.CreateWithQuantity(q, v)]
+                ar = [Array([v, w], u), Array([v, w], u, c), Array(c, [v, w], u), Array(q, [v, w]), Array.CreateWithQuantity(q, [v, w])]
+                fx = [FixedArray(2, [v, w], u), FixedArray(2, c, [v, w], u), FixedArray(2, q, [v, w])]
+                fr = [FractionScalar(v, u), FractionScalar(v, u, c), FractionScalar(q, v)]
+                return {"scalar": _all_equal(sc), "array": _all_equal(ar), "fixed": _all_equal(fx), "fraction": _all_equal(fr),
+                        "captions": [o.GetQuantity().GetUnknownCaption() for o in sc + ar + fx + fr],
+                        "repr_ok": eval(repr(sc[0]), dict({k_: v_ for k_, v_ in core._REGISTRY.items() if isinstance(k_, str)}, Scalar=Scalar)) == sc[1]}
         if cfg["k"] == "history":
             # a unit whose default category changes over the life of ONE database object: declared before the category is registered, or re-configured after Clear()
             from barril.units import UnitDatabase
@@ -254,6 +302,10 @@ def props(cfg, T, obs):
         return [("a unit without any default category is rejected with UnitsError, not built inconsistently", obs["nocat_exc"] in ("UnitsError", "InvalidUnitError", "InvalidQuantityTypeError"))]
     if cfg["k"] == "aux_exotic_values":
         return [("auxiliary, concrete (not solver-decided): amounts that are not floats (big ints, Decimal, Fraction, bool, numpy scalars) build equal Scalars holding a float in every form", obs["aux_bad"] == [])]
+    if cfg["k"] == "history2":
+        return [("whatever lookups happened before (a captioned quantity obtained by unit alone, a refused lookup before the category existed, another database refusing the pair), "
+                 "every form builds equal caption-less objects", obs["scalar"] == [] and obs["array"] == [] and obs["fixed"] == [] and obs["fraction"] == []
+                 and all(c_ == "" for c_ in obs["captions"]) and bool(obs["repr_ok"]))]
     if cfg["k"] == "history":
         return [("whatever happened to the database object before (the default category registered later than the unit, Clear() and a new configuration), every form builds equal objects of the "
                  "unit's CURRENT default category", obs["c"] == "pipe diameter" and obs["scalar"] == [] and obs["array"] == [] and obs["fraction"] == []
